@@ -164,7 +164,4 @@ Definition allow : list aentry := [
 
 (* Sites of OPEN findings (known_findings/C18.json): excluded from
    Tie_sites_comply, reported by the check as KNOWN-FINDING with the tag. *)
-Definition open_sites : list (Z * aentry) := [
-  (1%Z, mkAllow "lru.Cache.ll" "cache/lru/lru.go:Cache.RangeFILO" "" (KCall "Front") "F82");
-  (1%Z, mkAllow "lru.Cache.ll" "cache/lru/lru.go:Cache.RangeFIFO" "" (KCall "Back") "F82")
-].
+Definition open_sites : list (Z * aentry) := [].
